@@ -31,8 +31,12 @@ def main(argv):
     if getattr(prop, "kernel_contracts", True):
         monitors.install_kernel_contracts(ps)
     arms = getattr(prop, "arm_files", None)
-    if arms and k == 0:
-        monitors.install_arm_observer([(os.path.join(env.REPO, p), f) for p, f in arms])
+    if arms is not None and k == 0:
+        files = [(os.path.join(env.REPO, p), f) for p, f in arms]
+        if config == "emulated":
+            files += [(os.path.join(env.REPO, "pyspike", "cython", n + ".pyx"), None)
+                      for n in ("cython_get_tau",) + pyxemu.MODS]
+        monitors.install_arm_observer(files)
     if hasattr(prop, "setup"):
         prop.setup(ctx)
     if replay:
